@@ -17,6 +17,7 @@ pub mod c16;
 pub mod c17;
 pub mod c18;
 pub mod c19;
+pub mod c20;
 
 use crate::harness::Prop;
 
@@ -40,6 +41,7 @@ pub fn by_id(id: &str) -> Option<&'static dyn Prop> {
         "C17" => Some(&c17::C17),
         "C18" => Some(&c18::C18),
         "C19" => Some(&c19::C19),
+        "C20" => Some(&c20::C20),
         _ => None,
     }
 }
